@@ -147,10 +147,11 @@ pub fn replay(run: &mut Runner, path: &str, seed: u64) {
 pub fn from_mcp(run: &mut Runner, path: &str, seed: u64, stride: usize) {
     let mut rng = rng_from(seed, 14);
     for (bi, beh) in read_ndjson(path).into_iter().enumerate() {
-        if bi % stride != 0 {
+        let n = beh["n"].as_u64().unwrap() as usize;
+        // every behaviour of the one- and two-chunk messages, every stride-th of the longer ones
+        if n > 2 && bi % stride != 0 {
             continue;
         }
-        let n = beh["n"].as_u64().unwrap() as usize;
         let rx = beh["rx"].as_array().unwrap().clone();
         let mut banks: Vec<BankB> = crate::mcp::concretize_rx(&mut rng, &rx, n)
             .into_iter()
